@@ -303,8 +303,12 @@ def check_data_inputs_aligned(
 
             # Check pandas objects share the same index
             if check_index:
+                # the checked arguments, whether passed by position or by keyword
                 pandas_args = [
-                    arg for arg in args if isinstance(arg, (pd.Series, pd.DataFrame))
+                    arg
+                    for k, arg in arguments.items()
+                    if (not args_to_check or k in args_to_check)
+                    and isinstance(arg, (pd.Series, pd.DataFrame))
                 ]
                 if pandas_args:
                     first_index = pandas_args[0].index
